@@ -19,6 +19,8 @@
    default_ops.py, tensor_ops.py, pspace_ops.py, diff_ops.py. *)
 From Coq Require Import ZArith QArith List Bool.
 From Verif Require Import Base.Num Base.Vec Lib.Axis C13.Syntax Gen.FiniteDiff C13.Model C13.ModelNd.
+(* resize_array: model and generated slice arithmetic of C16 (qualified names: its pmode / Forward clash with C13's) *)
+From Verif Require C16.Syntax Gen.Padding C16.Model C16.ModelNd.
 Import ListNotations.
 Local Open Scope num_scope.
 
@@ -111,6 +113,10 @@ Inductive leaf :=
 | LProjAdj (ws : list (list T)) (pw : list T) (i : nat)
 | LPtInner (wb pw : list T) (g : list (list T)) (ow : list T)     (* PointwiseInner *)
 | LPtInnerAdj (wb pw : list T) (g : list (list T)) (ow : list T)  (* PointwiseInnerAdjoint *)
+(* ResizingOperator (pad_const = 0) and the operator it returns as adjoint: resize_array along axis 0, 1, ...
+   (C16.ModelNd.sep_loop), direction 'forward' from ishape to oshape / 'adjoint' from oshape back to ishape *)
+| LResize (wd wr : list T) (rm : C16.Syntax.pmode) (ishape oshape : list nat) (offs : list Z)
+| LResizeAdj (wd wr : list T) (rm : C16.Syntax.pmode) (ishape oshape : list nat) (offs : list Z)
 | LPDeriv (wd wr : list T) (shape : list nat) (ax : nat) (m : meth) (p : pmode) (dx : T)
 | LGrad (wd wr : list T) (shape : list nat) (m : meth) (p : pmode) (dxs : list T)
 | LDiv (wd wr : list T) (shape : list nat) (m : meth) (p : pmode) (dxs : list T)
@@ -133,6 +139,7 @@ Definition leaf_dom (l : leaf) : list T :=
   | LPtInner wb pw _ _ => pweights pw (map (fun _ => wb) pw)
   | LPtInnerAdj wb _ _ _ => wb
   | LPDeriv wd _ _ _ _ _ _ | LGrad wd _ _ _ _ _ | LDiv wd _ _ _ _ _ | LLap wd _ _ _ _ => wd
+  | LResize wd _ _ _ _ _ | LResizeAdj wd _ _ _ _ _ => wd
   | LRealR w | LImagR w | LEmbedR w _ _ => w
   | LRealC w | LImagC w | LEmbedC w _ _ => w ++ w
   end.
@@ -148,6 +155,7 @@ Definition leaf_ran (l : leaf) : list T :=
   | LPtInner wb _ _ _ => wb
   | LPtInnerAdj wb pw _ _ => pweights pw (map (fun _ => wb) pw)
   | LPDeriv _ wr _ _ _ _ _ | LGrad _ wr _ _ _ _ | LDiv _ wr _ _ _ _ | LLap _ wr _ _ _ => wr
+  | LResize _ wr _ _ _ _ | LResizeAdj _ wr _ _ _ _ => wr
   | LRealR w | LImagR w | LRealC w | LImagC w => w
   | LEmbedR w _ _ | LEmbedC w _ _ => w ++ w
   end.
@@ -203,6 +211,10 @@ Definition eval_leaf (l : leaf) (x : list T) : list T :=
   | LProjAdj ws _ i => zeros (offset ws i) ++ x ++ zeros (total ws - offset ws i - length (nth i ws []))
   | LPtInner wb _ g ow => ptinner (length wb) g ow x
   | LPtInnerAdj _ pw g ow => ptinner_adj g pw ow x
+  | LResize _ _ rm ishape oshape offs =>
+      C16.ModelNd.sep_loop rm C16.Syntax.Forward nzero true 1 ishape oshape offs x
+  | LResizeAdj _ _ rm ishape oshape offs =>
+      C16.ModelNd.sep_loop rm C16.Syntax.Adjoint nzero true 1 oshape ishape offs x
   | LPDeriv _ _ shape ax m p dx => pderiv shape ax m p nzero dx x
   | LGrad _ _ shape m p dxs => concat (gradient shape m p nzero dxs x)
   | LDiv _ _ shape m p dxs =>
@@ -307,6 +319,8 @@ Definition leaf_adjoint (l : leaf) : oexpr :=
   | LProjAdj ws pw i => Leaf (LProj ws pw i)
   | LPtInner wb pw g ow => Leaf (LPtInnerAdj wb pw g ow)
   | LPtInnerAdj wb pw g ow => Leaf (LPtInner wb pw g ow)
+  | LResize wd wr rm ishape oshape offs => Leaf (LResizeAdj wr wd rm ishape oshape offs)
+  | LResizeAdj wd wr rm ishape oshape offs => Leaf (LResize wr wd rm ishape oshape offs)
   | LPDeriv wd wr shape ax m p dx =>
       LScal (- none_) (Leaf (LPDeriv wr wd shape ax (adj_method m) (adj_padding p) dx))
   | LGrad wd wr shape m p dxs =>
